@@ -5,16 +5,22 @@ What is proved here is the filter → range part of the property (sql/index_buil
 range → filter part of the in-memory backend (expression.NewRangeFilterExpr), over the range model
 of C46: a key tuple lies in the ranges the builder produces iff every leaf predicate is TRUE on
 it, for all literals (integer, decimal, out of the column type's range), and the backend's filter
-expression is TRUE exactly on the members of a range. The engine-level statement (same WHERE on an
-indexed table and on an index-free copy) is the property oracle of harness/cmd/c03.
-Helper lemmas: Gms/Lemmas/IndexBuilder.lean, Gms/Lemmas/RangeSimplify.lean.
+expression is TRUE exactly on the members of a range. Between the two sits the analyzer
+(sql/analyzer/costed_index_scan.go): AND / OR trees of leaves go through `rangeBuildAnd` (OR groups
+intersected with `MySQLRangeCollection.Intersect`, a nil collection as the "nothing applied yet"
+sentinel), `rangeBuildOr` and `buildRangeCollection`; `scan_sound_complete` says the resulting
+collection is never nil and holds exactly the key tuples on which the filter is TRUE. The
+engine-level statement (same WHERE on an indexed table and on an index-free copy) is the property
+oracle of harness/cmd/c03.
+Helper lemmas: Gms/Lemmas/IndexBuilder.lean, Gms/Lemmas/IndexScan.lean, Gms/Lemmas/RangeSimplify.lean.
 -/
 import Gms.Lemmas.IndexBuilder
+import Gms.Lemmas.IndexScan
 import Gms.Props.C46
 import Gms.Generated.C03
 
 namespace Gms.C03
-open Gms.Range Gms.IndexBuilder
+open Gms.Range Gms.IndexBuilder Gms.IndexScan
 
 /-! ## Regenerated facts -/
 
@@ -53,6 +59,32 @@ code on this run) is the model's `rangeType`. -/
 theorem facts_match_rangeType :
     Gms.Generated.C03.rangeTypeTable.length = 25 ∧
     ∀ e ∈ Gms.Generated.C03.rangeTypeTable, rtName (rangeType ⟨kindCut e.1, kindCut e.2.1⟩) = e.2.2 := by
+  decide
+
+/-- `rangeBuildAnd` uses the nil collection as its sentinel exactly as `Gms.IndexScan.andStep` /
+`rangeBuildAnd` transliterate: an OR group with nil ranges is skipped, the first non-nil group
+initialises `ret`, and `ret == nil` after the loop means "no OR group": the leaf conjunction alone.
+There is no other nil test on `ret` (none is needed: `intersect_sound_never_nil`). -/
+theorem facts_match_andSentinel :
+    Gms.Generated.C03.andNilTests =
+      [("ranges == nil", "continue"), ("ret == nil", "ret = ranges; continue"),
+       ("ret == nil", "return partBuilder.Ranges(b.ctx), nil")] := by
+  decide
+
+def decCut (c : Nat × Int) : Cut :=
+  match c.1 with
+  | 0 => .belowNull | 1 => .aboveNull | 2 => .below c.2 | 3 => .above c.2 | _ => .aboveAll
+
+def decColl (rs : List (List ((Nat × Int) × (Nat × Int)))) : List Range :=
+  rs.map (fun r => r.map (fun c => ⟨decCut c.1, decCut c.2⟩))
+
+/-- The real `MySQLRangeCollection.Intersect` on the 36 pairs of a grid of one-column collections
+(mutually exclusive, overlapping, nested, with NULL, empty; dumped from the compiled code on this
+run) never returns nil and is the model's `collectionIntersect` over the plain-set tree. -/
+theorem facts_match_intersect :
+    Gms.Generated.C03.intersectTable.length = 36 ∧
+    ∀ e ∈ Gms.Generated.C03.intersectTable,
+      e.2.2.1 = false ∧ collectionIntersect listTree 40 (decColl e.1) (decColl e.2.1) = .ok (decColl e.2.2.2) := by
   decide
 
 /-! ## Literal rounding -/
@@ -164,6 +196,197 @@ theorem rangeFilterExpr_eq_mem (r : ColRange) (x : Option Int) (hn : r.NonInv) (
   cases lo <;> cases hi <;> simp [rangeType] at ht <;> cases x <;>
     simp [filterHolds, rangeType, cutKey, ColRange.mem, pt, Cut.isBelow, keyPt, ColRange.NonInv, Cut.compare, cmpKey] at hn ⊢ <;>
     (try (apply Bool.eq_iff_iff.mpr)) <;> (try simp) <;> (try omega)
+
+/-! ## The analyzer side: filter tree → range collection
+
+`costed_index_scan.go`: `rangeBuildAnd` (loop over the OR groups with a nil collection as the
+"nothing applied yet" sentinel, `MySQLRangeCollection.Intersect`, intersection with the leaf
+conjunction), `rangeBuildOr` (concatenation), `buildRangeCollection` (`RemoveOverlappingRanges` of
+the root). Model: Gms/Model/IndexScan.lean; lemmas: Gms/Lemmas/IndexScan.lean. -/
+
+/-- **`MySQLRangeCollection.Intersect` never returns the nil collection** and denotes the
+intersection: for non-nil well-formed collections of an index of `n ≥ 1` columns, over every
+set-like tree, a non-error result is non-nil, well-formed, and contains exactly the key tuples of
+both sides. When the two sides have nothing in common the result is the single all-empty range
+(next `example`) — `rangeBuildAnd` relies on this: it uses `ret == nil` for "no OR group applied yet". -/
+theorem intersect_sound_never_nil {T : Type} (ops : TreeOps T) (content : T → List Range)
+    (hts : Gms.C46.TreeSet ops content) (n : Nat) (hn : 0 < n) (fuel : Nat) (xs ys coll : List Range)
+    (hx : Good n xs) (hy : Good n ys) (h : collectionIntersect ops fuel xs ys = .ok coll) :
+    coll ≠ [] ∧ Good n coll ∧ ∀ v : Tuple, v ≠ [] → memAny coll v = (memAny xs v && memAny ys v) :=
+  have := collectionIntersect_sound ops content hts n hn fuel xs ys coll hx hy h
+  ⟨this.1.ne, this.1, this.2⟩
+
+/-- Disjoint collections: `{[1,1],[2,2]} ∩ {[5,5],[6,6]}` is the one all-empty range, not nil;
+overlapping ones: `{[1,3]} ∩ {[2,5],[7,9]} = {[2,3]}`. -/
+example : collectionIntersect listTree 20 [[ColRange.closed 1 1], [ColRange.closed 2 2]]
+      [[ColRange.closed 5 5], [ColRange.closed 6 6]] = .ok [[ColRange.empty]]
+    ∧ collectionIntersect listTree 20 [[ColRange.closed 1 3]] [[ColRange.closed 2 5], [ColRange.closed 7 9]]
+      = .ok [[ColRange.closed 2 3]] := by
+  decide
+
+/-- **`rangeBuildAnd`.** The OR groups' ranges (each nil = not in the scan, or well-formed) folded
+with the nil sentinel and `Intersect`, then intersected with the leaf conjunction's ranges: a
+non-error result is non-nil and well-formed, and a key tuple lies in it iff it lies in the ranges of
+every OR group that is in the scan and in the ranges of the leaf conjunction. -/
+theorem and_sound_complete {T : Type} (ops : TreeOps T) (content : T → List Range)
+    (hts : Gms.C46.TreeSet ops content) (n : Nat) (hn : 0 < n) (fuel : Nat)
+    (ors : List (List Range)) (part coll : List Range)
+    (hors : ∀ x ∈ ors, x = [] ∨ Good n x) (hp : Good n part)
+    (h : rangeBuildAnd ops fuel (ors.map Res.ok) part = .ok coll) :
+    Good n coll ∧ ∀ v : Tuple, v ≠ [] →
+      memAny coll v = (ors.all (fun x => x.isEmpty || memAny x v) && memAny part v) :=
+  rangeBuildAnd_sound ops content hts n hn fuel ors part coll hors hp h
+
+/-- The tree induction: ranges of a node (as the root / as a child of an OR) and of the OR groups
+of an AND spine. -/
+theorem tree_sound {T : Type} (ops : TreeOps T) (content : T → List Range)
+    (hts : Gms.C46.TreeSet ops content) (fuel : Nat) (t : IntType) (n : Nat) (hn : 0 < n) :
+    ∀ (e : E), E.WF n e →
+    (∀ x, nodeRanges ops fuel t n e = .ok x →
+      Good n x ∧ ∀ v : List (Option Int), v.length = n → (∀ q ∈ v, InType t q) →
+        memAny x (v.map pt) = e.holds v)
+    ∧ (∀ xs : List (List Range), orGroupRanges ops fuel t n e = xs.map Res.ok →
+      (∀ x ∈ xs, Good n x) ∧ ∀ v : List (Option Int), v.length = n → (∀ q ∈ v, InType t q) →
+        xs.all (fun x => memAny x (v.map pt)) = orsHold e v) := by
+  intro e
+  induction e with
+  | leaf c p =>
+    intro hwf
+    have hops : ∀ op ∈ [(c, p)], op.1 < n ∧ op.2.WF := by
+      intro op ho; simp at ho; subst ho; exact hwf
+    refine ⟨?_, ?_⟩
+    · intro x hx
+      simp only [nodeRanges, Res.ok.injEq] at hx
+      subst hx
+      refine ⟨build_ranges_good t n _ hops, fun v hv hty => ?_⟩
+      rw [build_sound_complete t n hn [(c, p)] hops v hv hty]
+      simp [E.holds]
+    · intro xs hxs
+      simp only [orGroupRanges] at hxs
+      have : xs = [] := by cases xs <;> simp_all
+      subst this
+      exact ⟨by simp, fun v _ _ => by simp [orsHold]⟩
+  | and a b iha ihb =>
+    intro hwf
+    obtain ⟨a1, a2⟩ := iha hwf.1
+    obtain ⟨b1, b2⟩ := ihb hwf.2
+    refine ⟨?_, ?_⟩
+    · intro x hx
+      simp only [nodeRanges] at hx
+      have hall := rangeBuildAnd_ok_all_ok ops fuel _ _ x hx
+      obtain ⟨xa, hxa⟩ := all_ok_map (orGroupRanges ops fuel t n a) (fun q hq => hall q (by simp [hq]))
+      obtain ⟨xb, hxb⟩ := all_ok_map (orGroupRanges ops fuel t n b) (fun q hq => hall q (by simp [hq]))
+      obtain ⟨ga, ma⟩ := a2 xa hxa
+      obtain ⟨gb, mb⟩ := b2 xb hxb
+      rw [hxa, hxb, ← List.map_append] at hx
+      have hops : ∀ op ∈ andLeaves a ++ andLeaves b, op.1 < n ∧ op.2.WF := by
+        intro op ho
+        rcases List.mem_append.mp ho with ho | ho
+        · exact andLeaves_wf n a hwf.1 op ho
+        · exact andLeaves_wf n b hwf.2 op ho
+      have hgood : ∀ y ∈ xa ++ xb, Good n y := by
+        intro y hy
+        rcases List.mem_append.mp hy with hy | hy
+        · exact ga y hy
+        · exact gb y hy
+      obtain ⟨g, m⟩ := rangeBuildAnd_sound ops content hts n hn fuel (xa ++ xb) _ x
+        (fun y hy => Or.inr (hgood y hy)) (build_ranges_good t n _ hops) hx
+      refine ⟨g, fun v hv hty => ?_⟩
+      have hne : v.map pt ≠ [] := by
+        intro e; have := congrArg List.length e
+        simp only [List.length_map, List.length_nil] at this; omega
+      rw [m (v.map pt) hne, build_sound_complete t n hn _ hops v hv hty]
+      have hden : ∀ (l : List (List Range)), (∀ y ∈ l, Good n y) →
+          l.all (fun y => den y (v.map pt)) = l.all (fun y => memAny y (v.map pt)) := by
+        intro l
+        induction l with
+        | nil => intro _; rfl
+        | cons y l ih =>
+          intro hl
+          simp only [List.all_cons]
+          rw [den_good (hl y (by simp)), ih (fun z hz => hl z (by simp [hz]))]
+      rw [hden _ hgood, List.all_append, ma v hv hty, mb v hv hty, holds_split (.and a b) v]
+      simp only [orsHold, andLeaves]
+    · intro xs hxs
+      simp only [orGroupRanges] at hxs
+      obtain ⟨xa, xb, e, hxa, hxb⟩ := List.append_eq_map_iff.mp hxs
+      subst e
+      obtain ⟨ga, ma⟩ := a2 xa hxa.symm
+      obtain ⟨gb, mb⟩ := b2 xb hxb.symm
+      refine ⟨?_, fun v hv hty => ?_⟩
+      · intro y hy
+        rcases List.mem_append.mp hy with hy | hy
+        · exact ga y hy
+        · exact gb y hy
+      · rw [List.all_append, ma v hv hty, mb v hv hty]; simp [orsHold]
+  | or a b iha ihb =>
+    intro hwf
+    obtain ⟨a1, _⟩ := iha hwf.1
+    obtain ⟨b1, _⟩ := ihb hwf.2
+    have hP1 : ∀ x, orAppend (nodeRanges ops fuel t n a) (nodeRanges ops fuel t n b) = .ok x →
+        Good n x ∧ ∀ v : List (Option Int), v.length = n → (∀ q ∈ v, InType t q) →
+          memAny x (v.map pt) = (E.or a b).holds v := by
+      intro x hx
+      obtain ⟨xa, xb, ha, hb, e⟩ := orAppend_ok _ _ x hx
+      subst e
+      obtain ⟨ga, ma⟩ := a1 xa ha
+      obtain ⟨gb, mb⟩ := b1 xb hb
+      exact ⟨good_append ga gb, fun v hv hty => by
+        rw [memAny_append, ma v hv hty, mb v hv hty]; simp [E.holds]⟩
+    refine ⟨?_, ?_⟩
+    · intro x hx
+      simp only [nodeRanges] at hx
+      exact hP1 x hx
+    · intro xs hxs
+      simp only [orGroupRanges] at hxs
+      match xs, hxs with
+      | [x], hxs =>
+        simp only [List.map_cons, List.map_nil, List.cons.injEq, and_true] at hxs
+        obtain ⟨g, m⟩ := hP1 x hxs
+        exact ⟨fun y hy => by simp at hy; subst hy; exact g, fun v hv hty => by
+          simp only [List.all_cons, List.all_nil, Bool.and_true]
+          rw [m v hv hty]; simp [orsHold, E.holds]⟩
+      | [], hxs => simp at hxs
+      | _ :: _ :: _, hxs => simp at hxs
+
+/-- **Index-scan theorem (AND / OR trees).** For an index of `n ≥ 1` integer columns, every filter
+built from leaf predicates on its columns with AND / OR (any nesting, any literals), every set-like
+tree: if `buildRangeCollection` returns a collection (no error from `RemoveOverlappingRanges`), the
+collection is not nil and a key tuple (NULLs allowed) lies in one of its ranges iff the filter is
+TRUE on it — in particular when two OR groups of a conjunction are mutually exclusive. -/
+theorem scan_sound_complete {T : Type} (ops : TreeOps T) (content : T → List Range)
+    (hts : Gms.C46.TreeSet ops content) (fuel : Nat) (t : IntType) (n : Nat) (hn : 0 < n)
+    (e : E) (hwf : E.WF n e) (coll : List Range) (h : rootRanges ops fuel t n e = .ok coll)
+    (v : List (Option Int)) (hv : v.length = n) (hty : ∀ x ∈ v, InType t x) :
+    coll ≠ [] ∧ memAny coll (v.map pt) = e.holds v := by
+  unfold rootRanges at h
+  cases hr : nodeRanges ops fuel t n e with
+  | ok rs =>
+    simp only [hr] at h
+    obtain ⟨g, m⟩ := (tree_sound ops content hts fuel t n hn e hwf).1 rs hr
+    have hne : v.map pt ≠ [] := by
+      intro e; have := congrArg List.length e
+      simp only [List.length_map, List.length_nil] at this; omega
+    refine ⟨(removeOverlapping_good ops content hts n fuel rs coll g h).ne, ?_⟩
+    rw [(Gms.C46.removeOverlapping_preserves ops content hts fuel rs coll g.ni h).1 _ hne, m v hv hty]
+  | err m => simp [hr] at h
+  | crash => simp [hr] at h
+  | fuel => simp [hr] at h
+
+/-- Non-vacuity, and the class of filter the theorem is about: two mutually exclusive OR groups plus
+a further restriction of the same column, `(a = 1 OR a = 2) AND (a = 5 OR a = 6) AND a > 0` on a
+TINYINT index: the result is the single all-empty range (no row), not the ranges of `a > 0`;
+with overlapping groups `(a = 1 OR a = 2) AND (a = 2 OR a = 6) AND a > 0` it is `[2, 2]`. -/
+example :
+    rootRanges listTree 50 ⟨-128, 127⟩ 1
+      (.and (.and (.or (.leaf 0 (.eq [.int 1])) (.leaf 0 (.eq [.int 2])))
+                  (.or (.leaf 0 (.eq [.int 5])) (.leaf 0 (.eq [.int 6]))))
+            (.leaf 0 (.gt (.int 0)))) = .ok [[ColRange.empty]]
+    ∧ rootRanges listTree 50 ⟨-128, 127⟩ 1
+      (.and (.and (.or (.leaf 0 (.eq [.int 1])) (.leaf 0 (.eq [.int 2])))
+                  (.or (.leaf 0 (.eq [.int 2])) (.leaf 0 (.eq [.int 6]))))
+            (.leaf 0 (.gt (.int 0)))) = .ok [[ColRange.closed 2 2]] := by
+  decide
 
 /-! ## Engine-level regions (decided on the generated query by harness/cmd/c03)
 
